@@ -43,6 +43,11 @@ func readFaultEnum(e *env) error {
 			sb.WriteString(cc.lineText(l) + "\n")
 		}
 		data := sb.String()
+		// every fourth file also carries malformed lines: lint lists them and must still fail on the read error
+		lintData := data
+		if f%4 == 0 {
+			lintData = strings.Replace(data, "\n", "\n  broken-entry\n", 2)
+		}
 		full, ret0, p0 := runPolicy(strings.NewReader(data), "continue", 0)
 		if p0 != nil || ret0 != nil {
 			e.mismatch("parser-wellformed-fails", "parser/parser.go", fmt.Sprintf("well-formed file fails: %v %v (input %q)", ret0, p0, data), map[string]interface{}{"input": data})
@@ -83,9 +88,17 @@ func readFaultEnum(e *env) error {
 			}
 			// the same file as log of `csv log` / `report quantity`, and as book of `csv database-resolved`
 			if k%2 == 0 {
-				for ci, args := range [][]string{{"csv", "log"}, {"report", "quantity"}, {"csv", "database-resolved"}, {"--no-color", "reg"}} {
+				for ci, args := range [][]string{{"csv", "log"}, {"report", "quantity"}, {"csv", "database-resolved"}, {"--no-color", "reg"}, {"lint", "log.yaml"}, {"lint", "-s", "log.yaml"}} {
+					in := data
+					if args[0] == "lint" {
+						in = lintData
+					}
+					kk := k
+					if kk > len(in) {
+						kk = len(in)
+					}
 					files := map[string]fileSrc{
-						"log.yaml":  func() io.Reader { return &faultReader{data: []byte(data), failAt: k, style: style, err: errLogRead} },
+						"log.yaml":  func() io.Reader { return &faultReader{data: []byte(in), failAt: kk, style: style, err: errLogRead} },
 						"food.yaml": strSrc(""),
 					}
 					if ci == 2 {
